@@ -391,7 +391,11 @@ func defaultAllocateDevices(
 		if quotav1.IsZero(resourceMinorPair.resources) {
 			continue
 		}
-		satisfied, _ := quotav1.LessThanOrEqual(podRequestPerInstance, resourceMinorPair.resources)
+		requestToCompare := podRequestPerInstance
+		if deviceType == schedulingv1alpha1.GPU {
+			requestToCompare = completeGPURequest(podRequestPerInstance, nodeDeviceTotal[resourceMinorPair.minor])
+		}
+		satisfied, _ := quotav1.LessThanOrEqual(requestToCompare, resourceMinorPair.resources)
 		if !satisfied {
 			continue
 		}
